@@ -39,6 +39,16 @@ func observeAll(e error, refs []error, yield bool) string {
 		w(fmt.Sprint(errors.Is(e, r)))
 	}
 	w(fmt.Sprint(errors.IsAny(e, refs...)))
+	// a search that finds nothing walks the whole chain, Mark layers included
+	var none []error
+	for _, r := range refs {
+		if r != nil && !errors.Is(e, r) {
+			none = append(none, r)
+		}
+	}
+	none = append(none, neverRef, neverWrapped)
+	w(fmt.Sprint(errors.IsAny(e, none...)))
+	w(fmt.Sprint(errors.IsAny(e, neverWrapped, neverRef)))
 	for _, t := range asTypeTargets {
 		w(asTarget(e, "type", t).String())
 	}
@@ -177,3 +187,6 @@ func cmdRace(args []string) {
 	os.WriteFile(filepath.Join(*out, "meta.json"), mb, 0o644)
 	fmt.Printf("C18: %d concurrent observer runs, %d result differences\n", evals, len(fails))
 }
+
+var neverRef = errors.New("never matches anything")
+var neverWrapped = errors.WithHint(errors.WithDomain(errors.Newf("never %d", 1), errors.NamedDomain("never")), "h")
